@@ -11,6 +11,7 @@
 (*   Call(f, a, c, mod, out, ran, mem)      mod "normal" | "local" | "ignore"           *)
 (*   Batch(f, args, c, rf, out, ran, mem)   call_batch / map_over_range                 *)
 (*   Forget(f, a, c, mem)   ForgetAll(f, mem)                                           *)
+(*   ForgetExc(f, a, c, mem)   memento(f, a, c).forget_exceptions_recursively()           *)
 (*   Par(calls, outs, ran, mem)   the root calls <<f, a, c>> of calls made at the same time by  *)
 (*        one thread each, under some schedule; outs: their outcomes in the order of calls      *)
 (* out: the outcome as nested tuples; ran: <<f, a>> of every body that started, in      *)
@@ -44,6 +45,7 @@ After(st, e) ==
     [] e.op = "Batch"     -> RunBatch(st.P, st.memo, e.f, e.args, e.c)
     [] e.op = "Forget"    -> [memo |-> st.memo \ {Key(e)}, ran |-> <<>>]
     [] e.op = "ForgetAll" -> [memo |-> {k \in st.memo : k[1] # e.f}, ran |-> <<>>]
+    [] e.op = "ForgetExc" -> [memo |-> st.memo \ ExcClosure(st.P, st.memo, {Key(e)}, {}), ran |-> <<>>]
     [] OTHER              -> [memo |-> st.memo, ran |-> <<>>]
 
 ExpCallOut(st, e) ==
@@ -89,6 +91,10 @@ Clauses(st, e) ==
    ELSE IF e.op = "Batch" THEN <<
       <<"batch_result_equals_elementwise_results_in_order", {"C15"}, ~En(st, {"C15"}) \/ (e.exc = "" /\ Same(e.out, ExpBatchOut(st, e)))>>,
       <<"batch_runs_each_unmemoized_distinct_element_once", {"C15"}, ~En(st, {"C15"}) \/ Same(e.ran, post.ran)>> >>
+   ELSE IF e.op = "ForgetExc" THEN <<
+      \* (beyond the listed properties: enforced only for cfg.prop = "EXT" and in the lock step with Runner)
+      <<"forget_exceptions_recursively_forgets_exactly_the_failed_calls_beneath", {"EXT"}, ~En(st, {"EXT"}) \/ (e.exc = "" /\ MemKeys(e) = post.memo)>>,
+      <<"forget_exceptions_recursively_runs_nothing", {"EXT"}, ~En(st, {"EXT"}) \/ e.ran = <<>> >> >>
    ELSE << <<"operation_raises_nothing", {"C02", "C15"}, ~En(st, {"C02", "C15"}) \/ e.exc = "">> >>)
   \o <<
       <<"null_storage_never_memoizes", {"C19"}, ~En(st, {"C19"}) \/ (st.store = "null" => e.mem = <<>>)>>,
